@@ -24,6 +24,7 @@ type c15Case struct {
 	Spec     PipeSpec   `json:"spec"`
 	Accept   []int      `json:"accept_close_nodes,omitempty"` // nodes that close connections on accept during the case
 	KillConn []int      `json:"kill_conns_first,omitempty"`   // nodes whose current connections are closed just before the case
+	Down     []int      `json:"down_nodes,omitempty"`         // nodes that are down during the case (connection refused), back up afterwards
 }
 
 // c15Build makes one client's pipeline of n GETs (or one split request at position splitAt) with a fault at pos.
@@ -76,6 +77,9 @@ func c15Enum() []c15Case {
 			// the node closes every new connection: the first request needs a fresh dial
 			cs2, _ := c15Build(0, n, -1, "", pos%2 == 1, 100)
 			out = append(out, c15Case{Cfg: sut.Config{ServerConns: 1}, Spec: PipeSpec{Clients: []ClientSpec{cs2}}, Accept: []int{0}, KillConn: []int{0}})
+			// the node is down altogether: dialling fails
+			cs3, _ := c15Build(0, n, -1, "", pos%2 == 0, 100)
+			out = append(out, c15Case{Cfg: sut.Config{ServerConns: 1}, Spec: PipeSpec{Clients: []ClientSpec{cs3}}, Down: []int{0}})
 		}
 	}
 	return out
@@ -114,6 +118,9 @@ func c15Gen(t *rapid.T) c15Case {
 		cs.Cuts = genCuts(40*n).Draw(t, "cuts")
 		c.Spec.Clients = append(c.Spec.Clients, cs)
 		c.Spec.Plans = append(c.Spec.Plans, plans...)
+	}
+	if rapid.IntRange(0, 7).Draw(t, "nodedown") == 0 {
+		c.Down = []int{rapid.IntRange(0, 2).Draw(t, "downnode")}
 	}
 	if rapid.IntRange(0, 4).Draw(t, "unknownredirect") == 0 {
 		cs := &c.Spec.Clients[0]
@@ -179,6 +186,12 @@ func c15Run(f *Fixture, c *c15Case) []Discrepancy {
 	for _, n := range c.Accept {
 		f.Cluster.SetAcceptClose(n, true)
 	}
+	for _, n := range c.Down {
+		f.Cluster.SetDown(n, true)
+	}
+	if len(c.Down) > 0 {
+		time.Sleep(20 * time.Millisecond)
+	}
 	rc := &refCtx{Password: c.Cfg.Password, Owners: f.Owners}
 	pi := indexPlans(&spec)
 	exps := make([][]Expect, len(spec.Clients))
@@ -192,6 +205,11 @@ func c15Run(f *Fixture, c *c15Case) []Discrepancy {
 	for _, n := range c.Accept {
 		f.Cluster.SetAcceptClose(n, false)
 	}
+	for _, n := range c.Down {
+		if err := f.Cluster.SetDown(n, false); err != nil {
+			harnessProblem("cannot bring fake node %d back up: %v", n, err)
+		}
+	}
 	ds := f.checkAlive("C15", nil)
 	if len(ds) > 0 {
 		return ds
@@ -202,7 +220,7 @@ func c15Run(f *Fixture, c *c15Case) []Discrepancy {
 	}
 	// afterwards every node is served again, over a connection opened after the fault where one was lost
 	var werr error
-	for attempt := 0; attempt < 4; attempt++ {
+	for attempt := 0; attempt < 8; attempt++ {
 		if werr = f.Witness(5 * time.Second); werr == nil {
 			break
 		}
@@ -218,6 +236,9 @@ func c15Run(f *Fixture, c *c15Case) []Discrepancy {
 		}
 	}
 	for _, n := range c.Accept {
+		faulty[n] = true
+	}
+	for _, n := range c.Down {
 		faulty[n] = true
 	}
 	for node := range faulty {
@@ -238,7 +259,13 @@ func c15Run(f *Fixture, c *c15Case) []Discrepancy {
 					struck = true
 				}
 			}
-			if struck || len(c.Accept) > 0 {
+			forced := false
+			for _, n := range append(append([]int{}, c.Accept...), c.Down...) {
+				if n == node {
+					forced = true
+				}
+			}
+			if struck || forced {
 				ds = append(ds, disc("C15/no-new-connection", "node %d lost its connection during the case but serves the witness over no connection opened afterwards", node))
 			}
 		}
@@ -264,6 +291,10 @@ func c15Classify(c *c15Case) (bool, []string) {
 	}
 	if len(c.Accept) > 0 {
 		cls = append(cls, "node-closes-on-accept")
+		nt = true
+	}
+	if len(c.Down) > 0 {
+		cls = append(cls, "node-down-connection-refused")
 		nt = true
 	}
 	for ci := range c.Spec.Clients {
